@@ -704,3 +704,107 @@ def check_string_table_model(fx, rep, rule):
         rep.check(rule, "%s/string-table/read" % rule, not raw and len(gets) >= 2, loc=F.short_file(b["sp"]),
                   found="%d raw index operations, %d get(..) calls" % (len(raw), len(gets)),
                   expected="offset and length are applied with get(..): an unreadable reference is an Err, never a panic", nontrivial=False)
+
+
+# ---- C09.9: the library's own self-test accepts every file the writer produces ------------------------------------------------
+MANDATORY_STR = {"obfuscated_name_offset", "original_name_offset"}
+OPTIONAL_STR = {"file_name_offset", "params_offset", "original_class_offset", "original_file_offset"}
+
+
+def check_self_test(fx, rep, rule):
+    """every assertion of ProguardCache::test is one the writer's invariants imply (string references resolve - optional ones
+    only when not the sentinel -, per-class ranges tile their section and stay inside it). Any other assertion (e.g. a
+    strict order where the writer only guarantees a non-strict one) could reject a valid file and is reported."""
+    import census as C
+    import flow as FL
+    p = A.one(rep, rule, "ProguardCache::test", A.method(fx, A.CACHE, "test"))
+    if not p:
+        return
+    rep.fn(p)
+    bodies = [fx.bodies[p]] + fx.closures_of(p)
+    n_assert = 0
+    for b in bodies:
+        fam = C.family_of(fx, fx.bodies[p])
+        for n, parents in F.walk_with_parents(b["body"]):
+            if not (n.get("k") == "Call" and "fn" in n):
+                continue
+            last = n["fn"]["path"].split("::")[-1]
+            if not (n["fn"]["path"].startswith(("core::panicking", "std::rt")) or last in ("assert_failed", "panic", "panic_fmt", "unwrap", "expect")):
+                continue
+            n_assert += 1
+            facts = FL.dominating_facts(n, parents)
+            cond = next(((f_, pol) for f_, pol in reversed(facts) if not pol), None)
+            why = None
+            if last in ("unwrap", "expect"):
+                why = None
+            elif cond is not None:
+                c = F.strip(cond[0])
+                why = _admissible_assertion(c, facts, n, parents, fam)
+            rep.check(rule, "%s/self-test/%s" % (rule, C.canon(cond[0])[:80] if cond else last), why is not None, loc=F.loc(n),
+                      found=("assert %s -- %s" % (F.pp(cond[0])[:160], why)) if why else "assertion `%s` is not one of the invariants the writer establishes" % (F.pp(cond[0])[:200] if cond else last),
+                      expected="string reference resolves (optional ones only when != u32::MAX); <section>_offset == running total of <section>_len; total <= section length")
+    rep.floor(rule + "/self-test", n_assert, 5, "assertions in ProguardCache::test")
+
+
+def _sec_total(v, fam, sec):
+    """v is a local initialised to 0 and only ever `+= <x>.<sec>_len`"""
+    import census as C
+    import flow as FL
+    v = FL.peel(v)
+    if v.get("k") == "Cast":
+        v = FL.peel(v["e"])
+    if v.get("k") not in ("Var", "Upvar"):
+        return False
+    srcs = fam.origins.sources(v["id"])
+    n_init = 0
+    for path, expr, how in srcs:
+        if how == "let" and path == () and expr is not None and C.int_lit(expr) == 0:
+            n_init += 1
+        elif how == "assignop" and expr.get("k") == "AssignOp" and expr["op"].startswith("Add") and F.strip(expr["r"]).get("k") == "Field" \
+                and F.strip(expr["r"])["name"] == sec + "_len":
+            continue
+        else:
+            return False
+    return n_init == 1
+
+
+def _admissible_assertion(c, facts, n, parents, fam):
+    import census as C
+    import flow as FL
+    # is_ok(read_string(self, X.<field>))
+    if F.is_call(c, "std::result::Result::<T, E>::is_ok"):
+        inner = FL.peel(c["args"][0])
+        if inner.get("k") == "Call" and "fn" in inner and inner["fn"]["path"].endswith("read_string") and len(inner["args"]) == 2:
+            fld = FL.peel(inner["args"][1])
+            if fld.get("k") == "Field":
+                if fld["name"] in MANDATORY_STR:
+                    return "mandatory string reference"
+                if fld["name"] in OPTIONAL_STR:
+                    for f_, pol in facts:
+                        f_ = F.strip(f_)
+                        if pol and f_.get("k") == "Binary" and f_["op"] == "Ne" and FL.same_place(f_["l"], fld) and "MAX" in F.pp(f_["r"]):
+                            return "optional string reference, checked only when not the sentinel"
+        return None
+    # assert_eq!(X.<sec>_offset, total)
+    if c.get("k") == "Binary" and c["op"] == "Eq":
+        # left_val / right_val are bound by `match (&a, &b)`
+        for q in reversed(parents):
+            if q.get("k") == "Match":
+                sc = F.strip(q["scrut"])
+                if sc.get("k") == "Tuple" and len(sc["fields"]) == 2:
+                    a_, b_ = FL.peel(sc["fields"][0]), FL.peel(sc["fields"][1])
+                    for x, y in ((a_, b_), (b_, a_)):
+                        if x.get("k") == "Field" and x["name"].endswith("_offset") and x["name"][:-7] in ("members", "members_by_params") \
+                                and _sec_total(y, fam, x["name"][:-7]):
+                            return "tiling: %s equals the running total of %s_len" % (x["name"], x["name"][:-7])
+                    return None
+        return None
+    # total as usize <= self.<sec>.len()
+    if c.get("k") == "Binary" and c["op"] in ("Le",):
+        r_ = FL.peel(c["r"])
+        if F.is_call(r_, *C.LEN_CALLS):
+            sec = FL.peel(r_["args"][0])
+            if sec.get("k") == "Field" and sec["name"] in ("members", "members_by_params") and _sec_total(c["l"], fam, sec["name"]):
+                return "tiling: the running total stays inside the %s section" % sec["name"]
+        return None
+    return None
